@@ -197,3 +197,26 @@ pub fn random_history(r: &mut Rng, cfg: &RandCfg) -> Vec<Op> {
     }
     ops
 }
+
+/// Greedy delta-debugging: remove operations one at a time (from the end) as long as `pred`
+/// (the same violation signature is reproduced) stays true. Returns a locally minimal history.
+pub fn minimize(ops: &[Op], mut pred: impl FnMut(&[Op]) -> bool, max_runs: usize) -> Vec<Op> {
+    let mut cur: Vec<Op> = ops.to_vec();
+    let mut runs = 0;
+    let mut progress = true;
+    while progress && runs < max_runs {
+        progress = false;
+        let mut i = cur.len();
+        while i > 0 && runs < max_runs {
+            i -= 1;
+            let mut cand = cur.clone();
+            cand.remove(i);
+            runs += 1;
+            if pred(&cand) {
+                cur = cand;
+                progress = true;
+            }
+        }
+    }
+    cur
+}
